@@ -26,7 +26,7 @@ vet=ok; go vet ./... >/dev/null 2>&1 || vet=FAIL
 demo=$(python3 -c "
 import json,re,sys
 c=json.load(open('$seed/meta.json'))['demo']['how_to_run']
-c=re.split(r'\s+#|\s+;\s+|\s+\(exit', c)[0]
+c=re.split(r'\s+#|\s*;\s+|\s\s+\(|\s+\(exit', c)[0]
 print(c)")
 (eval "$demo") >$seed/confirm_demo_with.txt 2>&1; with=$?
 git apply -R /tmp/wt-confirm-$id.diff
